@@ -1,7 +1,7 @@
-(* C14 phase 2: agreement of the two reader models on modules without blackbox instances (part A9) *)
+(* C14 phase 2: agreement of the two reader models on the documented subset (part A9) *)
 From stdpp Require Import strings gmap sets pretty.
 From CG Require Import Model.FastVerilog Proofs.FastVerilogProofs Gen.Gen_fastv.
-From CG Require Import Proofs.FvA0 Proofs.FvA1 Proofs.FvA2 Proofs.FvA3 Proofs.FvA4 Proofs.FvA5 Proofs.FvA6 Proofs.FvA7 Proofs.FvA8.
+From CG Require Import Proofs.FvA0 Proofs.FvA1 Proofs.FvA2 Proofs.FvP1 Proofs.FvE1 Proofs.FvE2 Proofs.FvE3 Proofs.FvE4 Proofs.FvA3 Proofs.FvE5 Proofs.FvE6 Proofs.FvE7 Proofs.FvA4 Proofs.FvA5 Proofs.FvA6 Proofs.FvA7 Proofs.FvA8.
 Open Scope string_scope.
 
 Lemma item_ok_gate bbs t inst ops : item_ok bbs (IGate t inst ops) = true →
@@ -13,29 +13,41 @@ Proof.
   intros Hsf. rewrite (bool_decide_eq_true_2 _ Hsf) in Hs. apply bool_decide_eq_true in Hs. simpl in Hs. lia.
 Qed.
 
+Lemma item_ok_inst bbs bb inst conns : item_ok bbs (IInst bb inst conns) = true →
+  ∃ d, find_bb_first bbs bb = Some d ∧ NoDup (fst <$> conns) ∧ bb_in d ## bb_out d ∧
+    ∀ p o, (p, o) ∈ conns → (p ∈ bb_in d ∨ p ∈ bb_out d) ∧ ∀ o', o = Some o' → const_ok o' = true ∧ (p ∉ bb_in d → is_net o' = true).
+Proof.
+  cbn [item_ok]. destruct (find_bb_first bbs bb) as [d|]; [|done]. rewrite !andb_true_iff. intros (((_ & Hnd) & Hall) & Hdisj).
+  apply bool_decide_eq_true in Hnd, Hdisj. exists d. split; [done|]. split; [done|]. split; [set_solver|].
+  intros p o Hin. rewrite forallb_forall in Hall. specialize (Hall (p, o)). rewrite <- elem_of_list_In in Hall. specialize (Hall Hin). cbn [fst snd] in Hall.
+  apply andb_true_iff in Hall as [Hp Ho]. split.
+  - apply orb_true_iff in Hp as [?%bool_decide_eq_true|?%bool_decide_eq_true]; auto.
+  - intros o' ->. apply andb_true_iff in Ho as [Hc Hn]. split; [done|]. intros Hpi. apply orb_true_iff in Hn as [?|?%bool_decide_eq_true]; done.
+Qed.
+Lemma NoDup_bind_elem {A} (f : A → list string) (l : list A) x : NoDup (l ≫= f) → x ∈ l → NoDup (f x).
+Proof.
+  induction l as [|y l IH]; intros Hnd Hx; [by apply elem_of_nil in Hx|]. rewrite bind_cons in Hnd. apply NoDup_app in Hnd as (H1 & _ & H3).
+  apply elem_of_cons in Hx as [->|Hx]; [done|by apply IH].
+Qed.
+
 Section derive.
   Variables (a : ast) (bbs : list bbdef) (t0 t1 tx : string).
   Hypothesis HF : subset_facts a bbs.
-  Hypothesis Hni : no_inst a = true.
   Hypothesis Hfresh : t0 ∉ idents a ∧ t1 ∉ idents a ∧ tx ∉ idents a.
+  Notation it_driver := (it_driver t0 t1 bbs). Notation good := (good t0 t1 tx bbs). Notation views := (views t0 t1 bbs).
 
-  Lemma ident_facts s : s ∈ idents a → okname s ∧ ¬ tie t0 t1 tx s.
+  Lemma ident_facts s : s ∈ idents a → netok s ∧ ¬ tie t0 t1 tx s.
   Proof.
-    intros Hs. split; [apply is_ident_okname, (sf_ident a bbs HF), Hs|]. unfold tie. destruct Hfresh as (? & ? & ?).
+    intros Hs. pose proof (sf_ident a bbs HF s Hs) as Hi. split; [split; [by apply is_ident_okname|by apply ident_not_dotted]|]. unfold tie. destruct Hfresh as (? & ? & ?).
     intros [Hx|[Hx|Hx]]; subst s; done.
-  Qed.
-  Lemma not_inst it : it ∈ a_items a → match it with IInst _ _ _ => False | _ => True end.
-  Proof.
-    intros Hit. unfold no_inst in Hni. rewrite forallb_forall in Hni. specialize (Hni it). rewrite <- elem_of_list_In in Hni.
-    specialize (Hni Hit). by destruct it.
   Qed.
   Lemma item_ok_of it : it ∈ a_items a → item_ok bbs it = true.
   Proof. intros Hit. pose proof (sf_items a bbs HF) as H. rewrite forallb_forall in H. apply H. by apply elem_of_list_In. Qed.
 
-  Lemma good_of it : it ∈ a_items a → good t0 t1 tx it.
+  Lemma good_of it : it ∈ a_items a → good it.
   Proof.
-    intros Hit. pose proof (not_inst it Hit) as Hn. pose proof (item_ok_of it Hit) as Hok.
-    destruct it as [ns|ns|ns|t inst ops|l r|bb inst conns]; cbn [good]; try done.
+    intros Hit. pose proof (item_ok_of it Hit) as Hok.
+    destruct it as [ns|ns|ns|t inst ops|l r|bb inst conns]; cbn [FvA4.good]; try done.
     - intros n Hn'. apply ident_facts. eapply idents_item; [exact Hit|done].
     - destruct (item_ok_gate _ _ _ _ Hok) as (o & ins & -> & Ht & Hc & Hs). exists o, ins. split; [done|]. split; [done|]. split; [done|]. split; [done|].
       assert (Ho : o ∈ idents a). { eapply idents_item; [exact Hit|]. cbn [item_ids]. right. rewrite bind_cons. apply elem_of_app. left. by left. }
@@ -44,29 +56,115 @@ Section derive.
     - cbn [item_ok] in Hok. split; [done|].
       assert (Hl : l ∈ idents a). { eapply idents_item; [exact Hit|]. by left. }
       destruct (ident_facts l Hl). split; [done|]. split; [done|]. intros s ->. apply ident_facts. eapply idents_item; [exact Hit|]. right. by left.
+    - destruct (item_ok_inst _ _ _ _ Hok) as (d & Hfirst & Hnd & Hdisj & Hc). exists d. split; [done|].
+      split; [rewrite find_bb_first_last; [done|apply (sf_bbs a bbs HF)]|].
+      assert (Hi : inst ∈ idents a). { eapply idents_item; [exact Hit|]. right. by left. }
+      split; [by destruct (ident_facts inst Hi)|]. split; [done|]. split; [done|]. split; [intros p o Hin; by destruct (Hc p o Hin)|].
+      intros p o Hin. destruct (Hc p (Some o) Hin) as [_ Ho]. destruct (Ho o eq_refl) as [H1 H2]. split; [done|]. split; [done|].
+      intros s ->. apply ident_facts. eapply idents_item; [exact Hit|]. cbn [item_ids]. right. right. apply elem_of_list_bind. exists (p, Some (ONet s)). split; [|done].
+      cbn [fst snd from_option opd_ids]. right. by left.
   Qed.
 
-  Lemma driver_eq it : it ∈ a_items a → item_drivers bbs it = it_driver t0 t1 it.
+  (* keys of a statement: the nets it drives (undotted) and, for an instance, its pins (dotted) *)
+  Lemma nm_net s : nm t0 t1 (ONet s) = s. Proof. done. Qed.
+  Lemma outnets_eq d inst conns : item_ok bbs (IInst d inst conns) = true → ∀ dd, find_bb_first bbs d = Some dd →
+    snd <$> filter (λ c : string * string, c.1 ∉ bb_in dd) (conn_dict t0 t1 conns) = item_drivers bbs (IInst d inst conns).
   Proof.
-    intros Hit. pose proof (not_inst it Hit) as Hn. pose proof (item_ok_of it Hit) as Hok.
-    destruct it as [ns|ns|ns|t inst ops|l r|bb inst conns]; try done.
-    destruct (item_ok_gate _ _ _ _ Hok) as (o & ins & -> & _). done.
+    intros Hok dd Hfirst. destruct (item_ok_inst _ _ _ _ Hok) as (d' & Hf' & _ & Hdisj & Hc). rewrite Hfirst in Hf'. injection Hf' as <-.
+    cbn [item_drivers]. rewrite Hfirst. clear Hok.
+    induction conns as [|[p [o|]] conns IH]; [done| |].
+    - rewrite conn_dict_cons_some, filter_cons, bind_cons. cbn [fst snd].
+      destruct (Hc p (Some o)) as [Hp Ho]; [by left|]. destruct (Ho o eq_refl) as [_ Hn].
+      destruct (decide (p ∉ bb_in dd)) as [Hpi|Hpi].
+      + specialize (Hn Hpi). destruct o as [s|s]; [|done]. rewrite bool_decide_eq_true_2 by (destruct Hp; done). rewrite fmap_cons. cbn [snd FvA3.nm]. f_equal. apply IH. intros; apply Hc; by right.
+      + assert (Hpi' : p ∈ bb_in dd) by (destruct (decide (p ∈ bb_in dd)); done). assert (p ∉ bb_out dd) by set_solver.
+        destruct o as [s|s]; [rewrite bool_decide_eq_false_2 by done|]; simpl; apply IH; intros; apply Hc; by right.
+    - rewrite conn_dict_cons_none, bind_cons. simpl. apply IH. intros; apply Hc; by right.
   Qed.
-  Lemma drivers_eq : a_items a ≫= item_drivers bbs = a_items a ≫= it_driver t0 t1.
+  Lemma keys_split it k : it ∈ a_items a → k ∈ it_driver it →
+    (dotted k = false ∧ k ∈ item_drivers bbs it) ∨ (dotted k = true ∧ ∃ bb inst conns p, it = IInst bb inst conns ∧ k = pin inst p).
   Proof.
-    assert (H : ∀ l, (∀ it, it ∈ l → it ∈ a_items a) → l ≫= item_drivers bbs = l ≫= it_driver t0 t1).
-    { induction l as [|it l IH]; intros Hl; [done|]. rewrite !bind_cons, IH by (intros; apply Hl; by right). f_equal. apply driver_eq, Hl. by left. }
-    by apply H.
+    intros Hit Hk. pose proof (item_ok_of it Hit) as Hok. pose proof (good_of it Hit) as Hg. unfold FvA4.it_driver in Hk.
+    destruct it as [ns|ns|ns|t inst ops|l r|bb inst conns]; cbn [FvA3.views FvA3.gate_view] in Hk; try (by apply elem_of_nil in Hk).
+    - destruct Hg as (o & ins & -> & _ & _ & _ & [_ Hod] & _). cbn [FvA3.gate_view fmap list_fmap fst] in Hk. apply elem_of_list_singleton in Hk as ->.
+      left. split; [done|]. by left.
+    - destruct Hg as (_ & [_ Hod] & _). cbn [fmap list_fmap fst] in Hk. apply elem_of_list_singleton in Hk as ->. left. split; [done|]. by left.
+    - destruct Hg as (d & Hfirst & _ & _ & _ & _ & _ & Hcs). rewrite Hfirst in Hk. unfold FvA3.inst_views in Hk. rewrite fmap_app, <- !list_fmap_compose in Hk. apply elem_of_app in Hk as [Hk|Hk].
+      + apply elem_of_list_fmap in Hk as ([p t] & -> & _). right. split; [apply pin_dotted|]. eauto 6.
+      + assert (Hk' : k ∈ snd <$> filter (λ c : string * string, c.1 ∉ bb_in d) (conn_dict t0 t1 conns)).
+        { apply elem_of_list_fmap in Hk as (c & -> & Hc). apply elem_of_list_fmap. eauto. }
+        left. split; [|by rewrite <- (outnets_eq bb inst conns Hok d Hfirst)].
+        apply elem_of_list_fmap in Hk' as ([p n] & -> & [Hpi Hin]%elem_of_list_filter). cbn [fst snd] in *.
+        apply conn_dict_elem in Hin as (o & Hin & ->). destruct (Hcs p o Hin) as (_ & Hnet & Hs). specialize (Hnet Hpi).
+        destruct o as [s|s]; [|done]. by destruct (Hs s eq_refl) as [[_ ?] _].
+  Qed.
+  Lemma drivers_sub it k : it ∈ a_items a → k ∈ item_drivers bbs it → k ∈ it_driver it.
+  Proof.
+    intros Hit Hk. pose proof (item_ok_of it Hit) as Hok. pose proof (good_of it Hit) as Hg. unfold FvA4.it_driver.
+    destruct it as [ns|ns|ns|t inst ops|l r|bb inst conns]; try (by apply elem_of_nil in Hk).
+    - destruct Hg as (o & ins & -> & _). cbn [item_drivers] in Hk. cbn [FvA3.views FvA3.gate_view fmap list_fmap fst]. done.
+    - cbn [item_drivers] in Hk. cbn [FvA3.views FvA3.gate_view fmap list_fmap fst]. done.
+    - destruct Hg as (d & Hfirst & _). cbn [FvA3.views]. rewrite Hfirst. rewrite <- (outnets_eq bb inst conns Hok d Hfirst) in Hk.
+      unfold FvA3.inst_views. rewrite fmap_app. apply elem_of_app. right. rewrite <- list_fmap_compose.
+      apply elem_of_list_fmap in Hk as (c & -> & Hc). apply elem_of_list_fmap. eauto.
+  Qed.
+
+  Lemma nodup_item_keys it : it ∈ a_items a → NoDup (it_driver it).
+  Proof.
+    intros Hit. pose proof (item_ok_of it Hit) as Hok. pose proof (good_of it Hit) as Hg. unfold FvA4.it_driver.
+    destruct it as [ns|ns|ns|t inst ops|l r|bb inst conns]; cbn [FvA3.views FvA3.gate_view]; try (by constructor).
+    - destruct Hg as (o & ins & -> & _). apply NoDup_singleton.
+    - apply NoDup_singleton.
+    - destruct Hg as (d & Hfirst & _ & _ & Hdisj & _ & _ & Hcs). rewrite Hfirst. unfold FvA3.inst_views. rewrite fmap_app, <- !list_fmap_compose. apply NoDup_app. split; [|split].
+      + apply (NoDup_fmap_2_strong _ (pin_list d)); [|by apply NoDup_fmap_1 with fst, pin_list_nodup].
+        intros [p t] [p' t'] H1 H2 Heq%pin_inj. simpl in Heq. subst p'. f_equal. by eapply nodup_fst_fun; [apply pin_list_nodup|..].
+      + intros k ([p t] & Hk1 & _)%elem_of_list_fmap Hk2. simpl in Hk1. subst k.
+        assert (Hkk : pin inst p ∈ it_driver (IInst bb inst conns)).
+        { unfold FvA4.it_driver. cbn [FvA3.views]. rewrite Hfirst. unfold FvA3.inst_views. rewrite fmap_app, <- !list_fmap_compose. apply elem_of_app. by right. }
+        assert (Hd : dotted (pin inst p) = false).
+        { apply elem_of_list_fmap in Hk2 as ([p' n] & Heq & [Hpi Hin]%elem_of_list_filter). cbn [fst snd] in *. rewrite Heq.
+          apply conn_dict_elem in Hin as (o & Hin & ->). destruct (Hcs p' o Hin) as (_ & Hnet & Hs). specialize (Hnet Hpi).
+          destruct o as [s|s]; [|done]. by destruct (Hs s eq_refl) as [[_ ?] _]. }
+        by rewrite pin_dotted in Hd.
+      + match goal with |- NoDup (?f <$> ?L) => replace (f <$> L) with (snd <$> L) by (apply list_fmap_ext; done) end.
+        rewrite (outnets_eq bb inst conns Hok d Hfirst). apply (NoDup_bind_elem _ (a_items a)); [apply (sf_nodup a bbs HF)|done].
+  Qed.
+  Lemma insts_sub it i : i ∈ it_insts it → i ∈ (λ it, match it with IGate _ i _ | IInst _ i _ => [i] | _ => [] end) it.
+  Proof. destruct it; cbn [it_insts]; intros H; try (by apply elem_of_nil in H). done. Qed.
+  Lemma nodup_keys : NoDup (a_items a ≫= it_driver).
+  Proof.
+    apply NoDup_bind_pos; [intros; by apply nodup_item_keys|].
+    intros i j x y k Hij Hi Hj Hkx Hky.
+    assert (Hx : x ∈ a_items a) by by eapply elem_of_list_lookup_2. assert (Hy : y ∈ a_items a) by by eapply elem_of_list_lookup_2.
+    destruct (keys_split x k Hx Hkx) as [[Hd1 Hk1]|[Hd1 (bb1 & i1 & c1 & p1 & Ex & Ek1)]], (keys_split y k Hy Hky) as [[Hd2 Hk2]|[Hd2 (bb2 & i2 & c2 & p2 & Ey & Ek2)]]; try congruence.
+    - by apply (NoDup_bind_inv (item_drivers bbs) (a_items a) i j x y k (sf_nodup a bbs HF)).
+    - subst x y. destruct (good_of _ Hx) as (d1 & _ & _ & [_ Hn1] & _). destruct (good_of _ Hy) as (d2 & _ & _ & [_ Hn2] & _).
+      rewrite Ek1 in Ek2. apply pin_inj2 in Ek2 as [-> _]; [|done|done].
+      apply (NoDup_bind_inv (λ it, match it with IGate _ i _ | IInst _ i _ => [i] | _ => [] end) (a_items a) i j _ _ i2 (sf_insts a bbs HF) Hij Hi Hj); by left.
+  Qed.
+  Lemma nodup_insts : NoDup (a_items a ≫= it_insts).
+  Proof.
+    apply NoDup_bind_pos; [intros x _; destruct x; cbn [it_insts]; try apply NoDup_nil_2; apply NoDup_singleton|].
+    intros i j x y k Hij Hi Hj Hkx Hky.
+    apply (NoDup_bind_inv (λ it, match it with IGate _ i _ | IInst _ i _ => [i] | _ => [] end) (a_items a) i j x y k (sf_insts a bbs HF) Hij Hi Hj); by apply insts_sub.
   Qed.
   Lemma inputs_eq : a_items a ≫= it_inputs = decl_inputs a.
   Proof. unfold decl_inputs. induction (a_items a) as [|it l IH]; [done|]. rewrite !bind_cons, IH. by destruct it. Qed.
-
-  (* every operand of a normalised gate is a tie or a net the guard knows as used *)
-  Lemma uses_sub it u : it ∈ a_items a → u ∈ it_uses t0 t1 it → u = t0 ∨ u = t1 ∨ u ∈ item_uses bbs it.
+  Lemma key_not_input k : k ∈ a_items a ≫= it_driver → k ∉ decl_inputs a.
   Proof.
-    intros Hit Hu. pose proof (not_inst it Hit) as Hn. pose proof (item_ok_of it Hit) as Hok. unfold it_uses in Hu.
-    destruct it as [ns|ns|ns|t inst ops|l r|bb inst conns]; cbn [gate_view] in Hu; try (by apply elem_of_nil in Hu).
-    - destruct (item_ok_gate _ _ _ _ Hok) as (o & ins & -> & _). cbn [gate_view item_uses] in *.
+    intros (it & Hk & Hit)%elem_of_list_bind Hin. destruct (keys_split it k Hit Hk) as [[_ Hd]|[Hd _]].
+    - apply (sf_drv_in a bbs HF k); [|done]. apply elem_of_list_bind. eauto.
+    - assert (Hi : k ∈ idents a).
+      { unfold decl_inputs in Hin. apply elem_of_list_bind in Hin as (it' & Hi & Hit'). eapply idents_item; [exact Hit'|]. destruct it'; try (by apply elem_of_nil in Hi). done. }
+      destruct (ident_facts k Hi) as [[_ Hx] _]. congruence.
+  Qed.
+
+  (* every operand of a normalised statement is a tie or a net the guard knows as used *)
+  Lemma uses_sub it u : it ∈ a_items a → u ∈ uses t0 t1 bbs it → u = t0 ∨ u = t1 ∨ u ∈ item_uses bbs it.
+  Proof.
+    intros Hit Hu. pose proof (item_ok_of it Hit) as Hok. pose proof (good_of it Hit) as Hg.
+    destruct it as [ns|ns|ns|t inst ops|l r|bb inst conns]; cbn [FvA3.uses FvA3.gate_view] in Hu; try (by apply elem_of_nil in Hu).
+    - destruct (item_ok_gate _ _ _ _ Hok) as (o & ins & -> & _). cbn [FvA3.gate_view item_uses] in *.
       assert (Hsub : u = t0 ∨ u = t1 ∨ u ∈ nm t0 t1 <$> ins).
       { unfold norm in Hu. destruct (is_parity t); [|auto]. case_bool_decide; cbn [snd] in Hu.
         - apply elem_of_list_singleton in Hu as ->. case_bool_decide; auto.
@@ -74,5 +172,9 @@ Section derive.
       destruct Hsub as [?|[?|Hsub]]; [auto|auto|]. apply elem_of_list_fmap in Hsub as (x & -> & Hx).
       destruct x as [s|s]; cbn [nm]; [|case_bool_decide; auto]. right. right. apply elem_of_list_bind. exists (ONet s). split; [by left|done].
     - cbn [snd item_uses] in *. apply elem_of_list_singleton in Hu as ->. destruct r as [s|s]; cbn [nm opd_ids]; [right; right; by left|case_bool_decide; auto].
+    - destruct Hg as (d & Hfirst & _). rewrite Hfirst in Hu. cbn [item_uses]. rewrite Hfirst.
+      apply elem_of_list_fmap in Hu as ([p n] & -> & [Hpi Hin]%elem_of_list_filter). cbn [fst snd] in *.
+      apply conn_dict_elem in Hin as (o & Hin & ->). destruct o as [s|s]; cbn [nm]; [|case_bool_decide; auto].
+      right. right. apply elem_of_list_bind. exists (p, Some (ONet s)). split; [|done]. cbn [fst snd]. rewrite bool_decide_eq_true_2 by done. by left.
   Qed.
 End derive.
